@@ -5,7 +5,7 @@ import FqModel.Serial.Common
 
   Quirks kept:
   * a string (0x02) and javascript (0x0d) value is read with `d.FieldUTF8NullFixedLen("value", length)`:
-    `length` bytes are consumed but the text is CUT AT THE FIRST NUL (known finding `bson-string-nul-cut`:
+    `length` bytes are consumed but the text is CUT AT THE FIRST NUL (known finding `bson-string-embedded-nul`:
     bson strings are length-prefixed and may contain U+0000);
   * the document terminator is read with `d.UintValidate(0)`, which only annotates: any byte is accepted;
   * array element names are ignored by `_bson_torepr`; a boolean is `.value != 0` (any non-zero byte is true);
